@@ -433,6 +433,23 @@ def run_layer2(case, verdict):
                              f"answer {answer}, identical {identical}, chain {case['chain']}, files {case['files']}"))
     except Exception as error:
         problems.append((f"compare_chain: exception {type(error).__name__}", str(error)))
+    # (c) the listing of the pool: a state is listed iff its own file is there, whatever else lies around
+    try:
+        show_params = params.copy()
+        show_params["show_location"] = source
+        listed = set(MemTransfer.show(show_params, None))
+        directory = f"{source}/vm1-id" + ("" if case["vm_state"] else f"/{case['images'][0]}")
+        suffix = ".state" if case["vm_state"] else ".qcow2"
+        for name in case.get("names", []):
+            verdict.count("pool_listing_names_compared")
+            present = f"{directory}/{name}{suffix}" in FILES
+            if (name in listed) != present:
+                problems.append(("pool listing reports a state whose file is not in the pool (or misses one that is)",
+                                 f"{name}: listed {name in listed}, file present {present}; directory holds "
+                                 f"{sorted(p[len(directory) + 1:] for p in FILES if p.startswith(directory + '/'))}"))
+                break
+    except Exception as error:
+        problems.append((f"show: exception {type(error).__name__}", str(error)))
     # (b) a get through the real SourcedStateBackend
     del OPS_LOG[:]
     pool_has = all(p in FILES for p in pool_files)
@@ -489,7 +506,18 @@ def draw_layer2(rng):
     if rng.random() < 0.08:
         for p in [p for p in files if p.startswith(":" + SHARED)]:
             del files[p]                        # state not in the pool
+    # what transfers leave behind in a pool directory: lock files (also of states whose image is gone), unfinished copies
+    directory = f":{SHARED}/vm1-id" + ("" if vm_state else f"/{images[0]}")
+    suffix = ".state" if vm_state else ".qcow2"
+    leftovers = {}
+    for name in states + ["gone1", "gone2"]:
+        if rng.random() < 0.5:
+            leftovers[f"{directory}/{name}{suffix}.lock"] = ""
+        if rng.random() < 0.1:
+            leftovers[f"{directory}/{name}{suffix}.part"] = "v0"
+    files.update(leftovers)
     case["files"] = files
+    case["names"] = states + ["gone1", "gone2"]
     return case
 
 
